@@ -258,7 +258,7 @@ class C05(Property):
             for n in (1, 2, 3):
                 combos = itertools.combinations_with_replacement(range(len(protos)), n)
                 for combo in combos:
-                    if n == 3 and not full and rng.random() > 0.02:
+                    if n == 3 and not full and rng.random() > 0.015:
                         continue
                     total += 1
                     yield {"wrap": wrap, "len": 12, "ps": [protos[i] for i in combo]}
@@ -271,8 +271,8 @@ class C05(Property):
                                "small_scope_complete_up_to": 3 if full else 2}
 
     def cases(self, rng: random.Random, tier: str, deep: bool) -> Iterator[Dict[str, Any]]:
-        n_random = 30000 if deep else 3000
-        n_directed = 10000 if deep else 1500
+        n_random = 30000 if deep else 2200
+        n_directed = 10000 if deep else 1200
 
         def with_perms(case: Dict[str, Any]) -> Dict[str, Any]:
             n = len(case["ps"])
